@@ -126,7 +126,7 @@ def run(c):
 
     # ---- 4. run-level determinism ------------------------------------------------------
     drv = hydrolib.driver()
-    cfgs = [dict(src="D", diffuse=0, n=[2, 2, 2], per=[0, 0, 0], copy=1, nthr=1, np=7777, nsrc=3),
+    cfgs = [dict(src="D", diffuse=0, n=[2, 2, 2], per=[0, 0, 0], copy=1, nthr=1, np=7775, nsrc=5),   # 4 left-over packets
             dict(src="DC", diffuse=1, n=[1, 1, 4], per=[0, 0, 0], copy=0, nthr=1, np=10000),
             dict(src="D", diffuse=1, n=[2, 1, 2], per=[1, 0, 1], copy=2, nthr=1, np=9999)]
     if tier != "quick":
